@@ -236,7 +236,7 @@ class Model(object):
 VALS = ['A', 'XYZ', '12', '0', ' ', 'a b', '', 'Q9', '-1.5', 'LONGERVALUE123', "O'NEIL", '&<>"']
 
 
-SEG_IDS = ['NM1', 'CLM', 'N3', 'HL', 'ISA', 'SV1', 'B2', 'REF']
+SEG_IDS = ['NM1', 'CLM', 'N3', 'HL', 'ISA', 'SV1', 'B2', 'REF', 'ST', 'STC', 'B2A', 'N1', 'N10', 'HLH', 'SV', 'RE']      # some are prefixes of others: a designator names a segment only by its whole id
 
 
 def rand_history(ctx, rng, hid):
@@ -319,7 +319,9 @@ def rand_history(ctx, rng, hid):
                              {'refdes': r, 'got': got, 'expected': exp})
                     return padded
     # the designators this segment accepted, carrying its id, on a segment with another id: reads and writes both refused, nothing changed
-    used = [r for (r, v) in ops if r.startswith(seg_id)]
+    import re as _re
+    own = _re.compile('^' + _re.escape(seg_id) + r'(\[[A-Z0-9]+\])?[0-9][0-9](-[0-9]+)?$')
+    used = [r for (r, v) in ops if own.match(r)]
     if used:
         oid = rng.choice([x for x in SEG_IDS if x != seg_id and x != 'ISA'])
         otext = oid + ele_t + 'P' + ele_t + 'Q' + sub_t + 'R' + ele_t + 'S'
